@@ -4,7 +4,7 @@
    (validated byte for byte against git 2.39.5 by the harness).  [wf_entry] = what git stores in an
    entry (ProofsEntry.v). *)
 From GixV.Base Require Import Bytes BytesFacts Outcome.
-From GixV.C24 Require Import Sha1 Model Spec ProofsEntry ProofsThreads ProofsV4 ProofsFuel ProofsFile.
+From GixV.C24 Require Import Sha1 Model Spec ProofsEntry ProofsThreads ProofsV4 ProofsFuel ProofsFile ProofsEoie.
 Local Open Scope N_scope.
 
 (* one version-2/3 entry as git writes it (any path length, also >= 0xfff where the length field
@@ -86,6 +86,20 @@ Theorem git_index_decodes_no_extensions : forall sha, (forall x, length (sha x) 
                 (let t := sha (firstn (length file - 20) file) in if is_null t then None else Some t)).
 Proof. exact L_git_index_decodes_no_extensions. Qed.
 
+(* ... and without that premise for version 2/3 files whose last entry has a name of at least 28 bytes:
+   the byte where the size field of an EOIE extension would start then lies inside the name, is not NUL,
+   and the probe fails whatever the hash function is. *)
+Theorem git_index_decodes_no_extensions_long_last_name : forall sha, (forall x, length (sha x) = 20%nat) ->
+  forall v es e threads,
+  (v = 2 \/ v = 3) -> Forall wf_entry (es ++ [e]) -> N.of_nat (length (es ++ [e])) < 4294967296 ->
+  Forall (fun e => N.of_nat (length (e_path e)) < 9223372036854775808) (es ++ [e]) ->
+  (28 <= length (e_path e))%nat ->
+  let file := git_plain_file sha v (es ++ [e]) in
+  from_bytes sha threads file =
+    Ok (mkState v (es ++ [e]) (any_sparse (es ++ [e])) exts_default
+                (let t := sha (firstn (length file - 20) file) in if is_null t then None else Some t)).
+Proof. exact L_git_index_decodes_no_extensions_long_last_name. Qed.
+
 (* The full statement of the property at file level; NOT proved in general (only [git_index_decodes_no_extensions] above; see NOTES.md): it is
    tested on every generated case by the correspondence run and by prop(). *)
 Definition git_index_decodes_full_statement : Prop :=
@@ -138,3 +152,13 @@ Example ex_git_plain_file :
   (exists st, from_bytes sha1 1 f4 = Ok st /\ s_entries st = es /\ from_bytes sha1 5 f4 = Ok st) /\
   (exists st, from_bytes sha1 1 f2 = Ok st /\ s_entries st = es /\ s_version st = 2).
 Proof. vm_compute. repeat split; eexists; repeat split; reflexivity. Qed.
+Example ex_entry_wf_long :
+  let e := ex_entry (bs "a-name-of-at-least-28-bytes.txt") in wf_entry e /\ (28 <= length (e_path e))%nat.
+Proof.
+  split; [|cbn; repeat constructor].
+  unfold wf_entry, ex_entry; cbn [e_words e_id e_flags e_path].
+  repeat split; try reflexivity.
+  - repeat constructor.
+  - cbn. intuition discriminate.
+  - cbn. discriminate.
+Qed.
